@@ -78,6 +78,9 @@ func exprString(v ssa.Value, names map[ssa.Value]string, depth int) string {
 			for _, a := range x.Call.Args {
 				as = append(as, exprString(a, names, depth+1))
 			}
+			if b.Name() == "min" || b.Name() == "max" {
+				sort.Strings(as)
+			}
 			return b.Name() + "(" + strings.Join(as, ",") + ")"
 		}
 	case *ssa.BinOp:
@@ -105,6 +108,16 @@ func exprString(v ssa.Value, names map[ssa.Value]string, depth int) string {
 		return "phi[" + strings.Join(ks, "|") + "]"
 	}
 	return "?" + v.Name()
+}
+
+// minOf recognises min(a, b) in either spelling: the two-way phi of an if-clamp (minPhi) or the built-in min.
+func minOf(v ssa.Value) (a, b ssa.Value, ok bool) {
+	if call, isCall := stripConv(v).(*ssa.Call); isCall {
+		if bi, isB := call.Call.Value.(*ssa.Builtin); isB && bi.Name() == "min" && len(call.Call.Args) == 2 {
+			return stripConv(call.Call.Args[0]), stripConv(call.Call.Args[1]), true
+		}
+	}
+	return minPhi(v)
 }
 
 // minPhi recognises phi[a, b] == min(a, b): the edge carrying b is taken when a > b, the edge carrying a otherwise.
@@ -195,7 +208,7 @@ func runC10(c *Ctx) {
 		for _, a := range storesTo(fn, cTail) {
 			if bo, ok := stripConv(a.Val).(*ssa.BinOp); ok && bo.Op == token.ADD {
 				for _, op := range []ssa.Value{bo.X, bo.Y} {
-					if big, small, ok := minPhi(op); ok {
+					if big, small, ok := minOf(op); ok {
 						sizePhi = stripConv(op)
 						if _, isPrm := small.(*ssa.Parameter); isPrm {
 							free = big
@@ -265,11 +278,19 @@ func runC10(c *Ctx) {
 		names := map[ssa.Value]string{}
 		var amount ssa.Value
 		eachInstr(fn, func(in ssa.Instruction) {
-			if ph, ok := in.(*ssa.Phi); ok {
-				if big, small, ok := minPhi(ph); ok {
-					if exprString(big, nil, 0) == "(claimTail-claimHead)" && exprString(small, nil, 0) == "$n" {
-						amount = ph
-					}
+			v, isVal := in.(ssa.Value)
+			if !isVal {
+				return
+			}
+			_, isPhi := in.(*ssa.Phi)
+			_, isCall := in.(*ssa.Call)
+			if !isPhi && !isCall {
+				return
+			}
+			if big, small, ok := minOf(v); ok {
+				bs, ss := exprString(big, nil, 0), exprString(small, nil, 0)
+				if (bs == "(claimTail-claimHead)" && ss == "$n") || (ss == "(claimTail-claimHead)" && bs == "$n") {
+					amount = v
 				}
 			}
 		})
